@@ -279,8 +279,22 @@ pub fn stmt(s: &S) -> Option<Value> {
     })
 }
 
-/// a typed line -> a command of the specification (None: not expressible)
+/// a typed line -> a command of the specification (None: not expressible).  The interpreter's own lexer and
+/// parser run here: a panic in them is not the harness's (the caller enters the same text into the interpreter
+/// under its own guard, where the panic is observed and reported)
 pub fn command(text: &str) -> Option<Value> {
+    match std::panic::catch_unwind(|| command_inner(text)) {
+        Ok(v) => v,
+        Err(_) => None,
+    }
+}
+
+/// does the interpreter's lexer / parser panic on this text?
+pub fn panics(text: &str) -> bool {
+    std::panic::catch_unwind(|| command_inner(text)).is_err()
+}
+
+fn command_inner(text: &str) -> Option<Value> {
     if text.len() > 1024 {
         return None;
     }
